@@ -36,7 +36,7 @@ Definition mkS (en ex : list cbname) : sdecl := {| sd_enter := en; sd_exit := ex
 Definition mkM (ss : list sdecl) (ts : list tdecl) (start : nat) (rtc allow : bool)
   (ps : list provider) (coro : list cbref) (rounds : list (list nat)) : mdecl :=
   {| md_states := ss; md_trans := ts; md_start := start; md_rtc := rtc; md_allow := allow;
-     md_providers := ps; md_coro := coro; md_rounds := rounds |}.
+     md_providers := ps; md_coro := coro; md_rounds := rounds; md_erounds := 1 |}.
 Definition mkSc (m : mdecl) (t : btable) (f : option nat) (ops : list op) (fuel : nat) : scenario :=
   {| sc_md := m; sc_tbl := t; sc_field0 := f; sc_ops := ops; sc_fuel := fuel |}.
 Definition mkO (r : ioutcome) (f : option nat) (al : option (list nat)) (l : list ientry) : iobs :=
@@ -239,6 +239,12 @@ Definition fl_C12 := {| f_val := false; f_exn := true; f_field := true; f_allowe
 Definition verdict_C12 := verdict_with fl_C12.
 Definition verdict_C12_any (c : case + nat) : nat :=
   match c with inl k => verdict_C12 k | inr 1 => 0 | inr _ => 2 end.
+(* C17: the clone's (and the original's) trace on the suffix: everything but depth *)
+Definition fl_C17 := {| f_val := true; f_exn := true; f_field := true; f_allowed := true;
+                        f_ids := true; f_ctx := true; f_nested := true; f_depth := false |}.
+Definition verdict_C17 := verdict_with fl_C17.
+Definition verdict_C17_any (c : case + nat) : nat :=
+  match c with inl k => verdict_C17 k | inr 1 => 0 | inr _ => 2 end.
 Definition verdict_all := verdict_with fl_all.
 Definition verdict_C01 := verdict_with fl_C01.
 Definition verdict_C02 := verdict_with fl_C02.
@@ -262,7 +268,15 @@ Fixpoint c04_walk (l1 : list obs) (l2 : list iobs) : nat :=
   | _, _ => 2
   end.
 Definition verdict_C04 (c : case) : nat := c04_walk (run_scenario (fst c)) (snd c).
-Definition verdict_C11 := verdict_with fl_C11.
+(* C11 additionally checks the model's own outcome against the property: IndexError (popping an empty
+   queue) is never what resuming or re-activating may do; 1 = implementation equals the model and
+   both break the property there *)
+Definition verdict_C11 (c : case) : nat :=
+  match verdict_with fl_C11 c with
+  | 0 => if existsb (fun o => match o_out o with RExn XIndex => true | _ => false end) (run_scenario (fst c))
+         then 1 else 0
+  | n => n
+  end.
 Definition verdict_C14 := verdict_with fl_C14.
 
 (* diagnostics for replay files: per operation, which component differs (out, field, allowed, log) *)
